@@ -33,6 +33,12 @@
       the string contains characters that are forbidden in a filename [NUL, '/', or the names '', '.', '..'];
       returns name unchanged".
 
+    * == "ignores insertion order": the same content inserted in the reverse order at every level is equal (Eq, kind
+      "reordered"); repr and the TOML text may differ.
+   What valjean does not have, hence is not modelled: a command-line override of the 'path' options, a configuration
+   file picked up from the working directory, a merge / `+` of configurations.  The layers that exist are
+   built-in defaults < mapping or file (-c) < argument of the task.  `valjean run` adds the section 'args'.
+
    A value is a leaf token, a built-in default (Def(k): the <cwd>/... string of key k) or one nested table.
    Keys are written without dashes: "log" = 'log-root', "out" = 'output-root', "rep" = 'report-root'. *)
 EXTENDS Integers, Sequences, FiniteSets, TLC, Json, IOUtils
@@ -76,12 +82,12 @@ Lookup(tree, p) ==
         ELSE IF p[3] \notin DOMAIN x.m THEN [exc |-> "KeyError", val |-> None]
         ELSE [exc |-> "", val |-> x.m[p[3]]]
 IsDirValue(x) == x.t = "def" \/ (x.t = "leaf" /\ x.v \in StrToks)
-(* needdir: the consumer makes a directory of the value (a table or a number is a TypeError); a PythonTask that only
-   queries gets whatever is there *)
+(* needdir: the consumer makes a directory of the value; what happens when the value is a table or a number is not
+   specified ("unspecified": ConfigTrace accepts anything there).  A PythonTask that only queries gets whatever is there. *)
 Resolve(arg, tree, k, needdir) ==
    IF arg # None THEN [exc |-> "", val |-> arg]
    ELSE LET l == Lookup(tree, <<"path", k>>) IN
-        IF l.exc # "" \/ ~needdir \/ IsDirValue(l.val) THEN l ELSE [exc |-> "TypeError", val |-> None]
+        IF l.exc # "" \/ ~needdir \/ IsDirValue(l.val) THEN l ELSE [exc |-> "unspecified", val |-> None]
 
 (* ---------------------------------------------------------------- small domains *)
 LeafVals == {Leaf(v) : v \in Toks}
@@ -145,24 +151,29 @@ Eff(os, e) ==
                            ELSE [objs |-> Append([os EXCEPT ![e.a].alias = TRUE],
                                                  Obj(IF e.kind = "ctor" THEN WithDefaults(os[e.a].tree) ELSE os[e.a].tree, TRUE)), res |-> Ok]
      [] e.op = "update" -> [objs |-> PutTree(os, e.a, Over(os[e.a].tree, e.m)), res |-> Ok]
-     [] e.op = "eq"     -> [objs |-> os, res |-> Res("", None, IF e.kind = "dict" THEN FALSE ELSE os[e.a].tree = os[e.b].tree)]
+     (* kind "dict": against a plain dict with the same content (another type: False); kind "reordered": against the same
+        content inserted in the reverse order at every level (True: equality ignores insertion order) *)
+     [] e.op = "eq"     -> [objs |-> os, res |-> Res("", None, IF e.kind = "dict" THEN FALSE ELSE IF e.kind = "reordered" THEN TRUE
+                                                                ELSE os[e.a].tree = os[e.b].tree)]
      [] e.op = "round"  -> [objs |-> Append(os, Obj(WithDefaults(os[e.a].tree), FALSE)), res |-> Ok]    \* kind: toml | repr
      [] e.op = "consume" -> [objs |-> os, res |->
-                              IF e.kind = "run" /\ ~ValidName(e.k2) THEN Exc("ValueError")
-                              ELSE LET r == Resolve(e.v, os[e.a].tree, e.k, e.kind # "pytask") IN Res(r.exc, r.val, FALSE)]
+                              LET r == Resolve(e.v, os[e.a].tree, e.k, e.kind # "pytask") IN
+                              IF e.kind = "run" /\ ~ValidName(e.k2) /\ r.exc # "KeyError" THEN Exc("ValueError")     \* both errors: either
+                              ELSE Res(r.exc, r.val, FALSE)]
      [] OTHER -> [objs |-> os, res |-> Exc("?")]
 
 (* which events the model takes in a state (the discipline of the random generator is the same) *)
 Can(os, e) ==
    /\ e.op \in {"new", "from", "copy", "round"} => Len(os) < MaxObjs
    /\ e.op \notin {"new", "from", "newbad"} => e.a \in 1 .. Len(os)
-   /\ e.op = "eq" /\ e.kind # "dict" => e.b \in 1 .. Len(os)
+   /\ e.op = "eq" /\ e.kind = "" => e.b \in 1 .. Len(os)
    /\ e.op \in {"set", "setin"} => ~os[e.a].alias
 
 E(op, a, b, s, k, k2, n, v, m, kind) == [op |-> op, a |-> a, b |-> b, s |-> s, k |-> k, k2 |-> k2, n |-> n, v |-> v, m |-> m, kind |-> kind]
 
 (* ---------------------------------------------------------------- path.py *)
-Paths   == UNION {[1 .. n -> Names] : n \in 1 .. 3}
+Paths   == IF Big THEN UNION {[1 .. n -> Names] : n \in 1 .. 3}
+           ELSE UNION {[1 .. n -> Names] : n \in 1 .. 2} \cup {[i \in 1 .. 3 |-> CHOOSE x \in Names : TRUE]}
 Prefixes(p) == {SubSeq(p, 1, n) : n \in 1 .. Len(p) - 1}
 FNames  == UNION {[1 .. n -> Chars] : n \in 0 .. MaxName}
 Sanitary(nm) == /\ \A i \in DOMAIN nm : nm[i] \notin {"/", "0"}
@@ -206,13 +217,14 @@ Update  == \E a \in Ids, m \in ULits : ConfMode /\ Do(E("update", a, 0, "", "", 
 Eq      == \E a \in Ids :
               /\ ConfMode
               /\ \/ \E b \in Ids : Do(E("eq", a, b, "", "", "", 0, None, <<>>, ""))
-                 \/ Do(E("eq", a, 0, "", "", "", 0, None, <<>>, "dict"))
+                 \/ \E kd \in {"dict", "reordered"} : Do(E("eq", a, 0, "", "", "", 0, None, <<>>, kd))
 Round   == \E a \in Ids : ConfMode /\ Do(E("round", a, 0, "", "", "", 0, None, <<>>, ""))
 Consume == \E a \in Ids :
               /\ ConfMode
               /\ \/ \E nm \in {"t", ".."} : Do(E("consume", a, 0, "path", "out", nm, 2, None, <<>>, "run"))
                  \/ \E k \in {"log", "out"}, arg \in {None} \cup {Leaf(v) : v \in StrToks} :
-                       Do(E("consume", a, 0, "path", k, "t", 2, arg, <<>>, "checkout"))
+                       /\ Big \/ (k = "log" /\ a = 1 /\ Len(hist) = MaxOps - 1)        \* (a real checkout starts two processes)
+                       /\ Do(E("consume", a, 0, "path", k, "t", 2, arg, <<>>, "checkout"))
                  \/ \E k \in (IF Big THEN DefKeys ELSE {"rep"}) : Do(E("consume", a, 0, "path", k, "t", 2, None, <<>>, "pytask"))
 
 PDo(e, f, r) == /\ Len(hist) < MaxPathOps
@@ -303,6 +315,7 @@ W_FileOverridesOneDefault == ~(\E i \in DOMAIN objs : LET p == objs[i].tree IN
                                  /\ p["path"]["out"].t = "leaf" /\ p["path"]["log"].t = "def")
 W_MissingKey     == ~(res.exc = "KeyError" /\ hist # <<>> /\ hist[Len(hist)].op = "get")
 W_TypeError      == ~(res.exc = "TypeError")
+W_Unspecified    == ~(res.exc = "unspecified")
 W_NestedSet      == ~(hist # <<>> /\ hist[Len(hist)].op = "setin" /\ res.exc = "")
 W_CopyDiverged   == ~(Len(objs) = 2 /\ objs[1].tree # objs[2].tree /\ HistHas(LAMBDA e : e.op = "copy"))
 W_AliasedTopLevel == ~(Len(objs) = 2 /\ objs[1].alias /\ hist[Len(hist)].op \in {"setsec", "del", "update"})
@@ -318,10 +331,10 @@ W_BadName        == ~(res.exc = "ValueError" /\ hist # <<>> /\ hist[Len(hist)].o
 
 WitnessNames == <<"W_FileOverridesOneDefault", "W_MissingKey", "W_TypeError", "W_NestedSet", "W_CopyDiverged", "W_AliasedTopLevel",
                   "W_EqualByOtherHistory", "W_Unequal", "W_DefaultsLost", "W_ArgWins", "W_ConsumeFile", "W_EnsureBlocked",
-                  "W_EnsureParents", "W_BadName">>
+                  "W_EnsureParents", "W_BadName", "W_Unspecified">>
 WitnessVals  == <<W_FileOverridesOneDefault, W_MissingKey, W_TypeError, W_NestedSet, W_CopyDiverged, W_AliasedTopLevel,
                   W_EqualByOtherHistory, W_Unequal, W_DefaultsLost, W_ArgWins, W_ConsumeFile, W_EnsureBlocked,
-                  W_EnsureParents, W_BadName>>
+                  W_EnsureParents, W_BadName, W_Unspecified>>
 (* one run (-workers 1) records which witnesses were violated: register 100 + i is set when witness i is reached *)
 WInit == Init /\ \A i \in DOMAIN WitnessNames : TLCSet(100 + i, FALSE)
 WSpec == WInit /\ [][Next]_vars
